@@ -188,6 +188,8 @@ var opts = scen.GenOpts{
 	Refresh:     true,
 	Restarts:    true,
 	MaxSteps:    6,
+	// a clock that stands still within a sprint makes equal timestamps common (anything ordered by time after a reload)
+	FrozenClocks: true,
 }
 
 var spec = (&sprop.Spec{Name: "TestPersistenceTransparent", Opts: opts, Oracle: oracle, Finish: finish, Classify: classify}).Register()
